@@ -250,7 +250,9 @@ def observe(ctx, cd, label, nsf, dclspc, edits, compile_all, touch=(), project=N
             if not hp or hp[0] not in tree:
                 continue
             # overridden = declared in the realising class's header (marked override, or declared by the class itself)
-            have = collections.Counter((d["name"], len(d["params"])) for d in us.declarations(tree[hp[0]]))
+            decls_h = us.declarations(tree[hp[0]])
+            have = collections.Counter((d["name"], len(d["params"])) for d in decls_h)
+            have_c = collections.Counter((d["name"], len(d["params"]), bool(d["const"])) for d in decls_h)
             # the realised interface and every pure virtual interface it inherits from, directly or not (an interface that adds nothing
             # of its own still hands down what its parents demand)
             chain, todo_i, seen_i = [], [inh.CLASS_FROM_ID], set()
@@ -265,8 +267,10 @@ def observe(ctx, cd, label, nsf, dclspc, edits, compile_all, touch=(), project=N
                 for op in j.OPERATIONS:
                     if op.VISIBILITY not in ("public", "protected", "private"):
                         continue
-                    if not have.get((op.NAME, len(op.PARAMETERS))):
-                        fail("%s realises %s%s but does not override %s" % (c.NAME, i.NAME, "" if j is i else " (which inherits %s)" % j.NAME, op.NAME),
+                    if not have.get((op.NAME, len(op.PARAMETERS))) or not have_c.get((op.NAME, len(op.PARAMETERS), bool(op.IS_CONST))):
+                        # a const operation is only overridden by a const one (a non-const namesake is another function)
+                        fail("%s realises %s%s but does not override %s%s" % (c.NAME, i.NAME, "" if j is i else " (which inherits %s)" % j.NAME, op.NAME,
+                                                                              " const" if op.IS_CONST else ""),
                              "uml:%s:%s:%s" % (label, c.NAME, op.NAME), finding_class="uml:realised-operation-not-overridden")
         # accepted by a C++ compiler
         todo = sorted(tree) if compile_all else sorted(tree)[:: max(1, len(tree) // 6)]
@@ -603,7 +607,7 @@ def directed_probes(ctx):
     for j, probe in enumerate(us.probe_names(label)):
         cd = us.load(label)
         touch = us.apply_probe(cd, probe)
-        nsf = bool(j % 2) or probe.startswith("overloads-foreign-return")     # same-named classes need namespace folders (K-C19-5)
+        nsf = bool(j % 2) or probe.startswith(("overloads-foreign-return", "rename-to-interface-name"))     # same-named classes need namespace folders (K-C19-5)
         if ctx.km is not None:
             function_level(ctx, cd, label)
         fails, nontrivial = observe(ctx, cd, label, nsf, "", ["probe:" + probe], compile_all=not ctx.quick, touch=touch)
